@@ -30,6 +30,7 @@ pub mod shims {
     pub struct FileSpec { _o: () }
     impl PartialEq for FileSpec { #[verifier::external_body] fn eq(&self, o: &FileSpec) -> (r: bool) ensures r == (*self == *o) { unimplemented!() } }
     pub struct FileLogWriterConfig { pub write_mode: WriteMode, pub file_spec: FileSpec }
+    impl Clone for FileLogWriterConfig { #[verifier::external_body] fn clone(&self) -> (r: FileLogWriterConfig) ensures r == *self { unimplemented!() } }
     #[verifier::external_body]
     pub fn io_err(s: &'static str) -> std::io::Error { unimplemented!() }
 }
@@ -115,6 +116,7 @@ pub mod state_handle {
         pub closed spec fn poisoned(&self) -> bool { match self { StateHandle::Sync(h) => mutex_poisoned(&*h.am_state) } }
         /// the State behind the mutex after the call (prophecy oracle, A11)
         pub closed spec fn state_after(&self) -> State { match self { StateHandle::Sync(h) => *mutex_after(&*h.am_state) } }
+        pub closed spec fn state_now(&self) -> State { match self { StateHandle::Sync(h) => *mutex_content(&*h.am_state) } }
     //@ fn src/writers/file_log_writer/state_handle.rs impl StateHandle / fn plain_write
     //@   ret r
     //@   props C15
@@ -130,6 +132,11 @@ pub mod state_handle {
     //@   props C16
     //@   rule R3 *
     //@   ens[StateHandle::existing_log_files.post] (r is Ok) == !self.poisoned() && (r is Ok ==> r->Ok_0@ == state_elf(selector))
+    //@ fn src/writers/file_log_writer/state_handle.rs impl StateHandle / fn config
+    //@   ret r
+    //@   props C18
+    //@   rule R3 *
+    //@   ens[StateHandle::config.post] (r is Ok) == !self.poisoned() && (r is Ok ==> r->Ok_0 == self.state_now().cfg)
     //@ fn src/writers/file_log_writer/state_handle.rs impl StateHandle / fn flush
     //@   ret r
     //@   props C04
@@ -139,7 +146,7 @@ pub mod state_handle {
     //@   ret r
     //@   props C18
     //@   rule R3 *
-    //@   req[reset.pre.perm] forall|b: &FileLogWriterBuilder| #[trigger] build_ok(b) <==> (b == flwb && exists|m: WriteMode| assert_result(flwb, m) is Ok)
+    //@   req[reset.pre.perm] forall|b: &FileLogWriterBuilder| #[trigger] build_ok(b) <==> (b == flwb && assert_result(flwb, self.state_now().cfg.write_mode) is Ok)
     //@   ens[reset.post.ok] r is Ok ==> build_result(flwb) is Ok
     //@   ens[reset.post.installed] r is Ok ==> self.state_after() == build_result(flwb)->Ok_0
     //@   count 1 *state =
